@@ -1,10 +1,9 @@
 #!/usr/bin/env python3
-"""Maintenance helper for lean/RoProps/C18Expected.lean (NOT run by ./check): prints the file from
-an extraction of the pinned tree and an extraction of the repaired tree, for a human to review
-and commit.   usage: c18_expected.py <pinned Plugins.lean> <repaired Plugins.lean> > lean/RoProps/C18Expected.lean"""
+"""Maintenance helper for lean/RoProps/C18Expected.lean (NOT run by ./check): prints the file from an
+extraction of the reviewed tree, for a human to review and commit.
+usage: c18_expected.py lean/RoGen/Plugins.lean > lean/RoProps/C18Expected.lean"""
 import re, sys
 pin = open(sys.argv[1]).read()
-fix = open(sys.argv[2]).read()
 
 def section(s, name):
     i = s.index('def %s :' % name); j = s.index('\n]\n', i)
@@ -13,36 +12,33 @@ def section(s, name):
 def split_rows(block):
     return re.findall(r'^  \{ .*?\}(?=,\n  \{ |\n\])', block, flags=re.S | re.M)
 
-ptab, ftab = split_rows(section(pin, 'table')), split_rows(section(fix, 'table'))
-phel, fhel = split_rows(section(pin, 'helpers')), split_rows(section(fix, 'helpers'))
-assert len(ptab) == len(ftab) and len(phel) == len(fhel)
-rep = [f for p, f in zip(ptab, ftab) if p != f]
+ptab = split_rows(section(pin, 'table'))
+phel = split_rows(section(pin, 'helpers'))
 
 def norm_of(h):
     name = re.search(r'name := txt% "([^"]+)"', h).group(1); pkg = re.search(r'pkg := txt% "([^"]+)"', h).group(1)
     norm = h[h.index('norm := ') + 8:].rstrip().rstrip('}').rstrip()
     return pkg, name, norm
 
-def diffs(hel):
-    d = {}
-    for h in hel:
-        pkg, name, norm = norm_of(h); d.setdefault(name, {})[pkg] = norm
-    return {n: v for n, v in d.items() if v['strings'] != v['bytes']}
-
-pd, fd = diffs(phel), diffs(fhel)
+d = {}
+for h in phel:
+    pkg, name, norm = norm_of(h); d.setdefault(name, {})[pkg] = norm
+pd = {n: v for n, v in d.items() if v['strings'] != v['bytes']}
 out = ['''/-
   RoProps.C18Expected — the EXPECTED `Plugins` table (hand-maintained; reviewed against
-  /repo/plugins/** at the pinned commit, row by row): for every exported function of the data
-  plugins its lift kind and the normalised body of what it lifts — which library function, which
-  operator parameter at which argument position, which constants.  `RoProps/C18.lean` decides
-  that the table go/extract regenerates from the working tree matches this one.
+  /repo/plugins/** row by row): for every exported function of the data plugins its lift kind and
+  the normalised body of what it lifts — which library function, which operator parameter at
+  which argument position, which constants.  `RoProps/C18.lean` decides that the table go/extract
+  regenerates from the working tree EQUALS this one.
   (`txt% "…"` is the text as a number, see RoModel/PluginFacts.lean.)
 
-  `repaired`: the rows as they read after repo_fixes/C18-sort-stable.patch and
-  repo_fixes/C18-stdio-reader.patch; a regenerated row may be the pinned one or its repaired
-  form, nothing else.  `helperDiffs`: the only helper pairs of plugins/strings vs plugins/bytes
-  whose flavour-erased bodies are allowed to differ, with the exact bodies (pinned and repaired).
-  (tools/dev/c18_expected.py prints this file from two extractions, for review.)
+  The rows of `sort.SortStableFunc` (sort.SliceStable) and `stdio.NewIOReader` (one fresh chunk per
+  read, data before the error) are the rows after the fix commits f5a4b6b and ef635f4 of /repo; the
+  earlier forms (sort.Slice; `buf[:n]` handed out) are no longer accepted.
+  `helperDiffs`: the only helper pairs of plugins/strings vs plugins/bytes whose flavour-erased
+  bodies are allowed to differ, with the exact bodies (after 740a09d: the byte `ellipsis` copies
+  before appending; after 214bd3e: the byte `words` decodes valid UTF-8 sequences).
+  (tools/dev/c18_expected.py prints this file from an extraction, for review.)
 -/
 import RoModel.PluginFacts
 namespace Ro.C18.Expected
@@ -51,11 +47,9 @@ open Ro.PluginFacts
 def table : List Row := [
 ''']
 out.append(',\n'.join(ptab) + '\n]\n\n')
-out.append('def repaired : List Row := [\n' + ',\n'.join(rep) + '\n]\n\n')
 out.append('/-- (helper name, flavour-erased body in plugins/strings, flavour-erased body in plugins/bytes) -/\ndef helperDiffs : List (Txt × List Txt × List Txt) := [\n')
 ent = []
-for tag, d in (('pinned', pd), ('repaired', fd)):
-    for n, v in d.items():
-        ent.append('  -- %s\n  (txt%% "%s",\n    %s,\n    %s)' % (tag, n, v['strings'], v['bytes']))
+for n, v in pd.items():
+    ent.append('  (txt%% "%s",\n    %s,\n    %s)' % (n, v['strings'], v['bytes']))
 out.append(',\n'.join(ent) + '\n]\n\nend Ro.C18.Expected\n')
 sys.stdout.write(''.join(out))
